@@ -626,6 +626,16 @@ class CallMixin(object):
         self.drain_generators(args, {}, node)
         return NONE
 
+    def ext_sys_exit(self, args, kwargs, node):
+        n = self.emit('ext', node, {'fn': 'sys.exit', 'args': list(args),
+                                    'kwargs': dict(kwargs), 'terminates': True})
+        self.route_raise(n, ['SystemExit'], soft=True)
+        self.goto(self.g.exit, 'sys.exit')
+        return Unknown('sys.exit')
+
+    ext_exit = ext_sys_exit
+    ext_os__exit = ext_sys_exit
+
     def ext_range(self, args, kwargs, node):
         return Call('range', tuple(args), (), None)
 
